@@ -241,7 +241,7 @@ def main():
         "numpy's uniform / beta / normal samplers and pymc_ext's angle distribution are trusted to follow what they document; the check "
         "decides the transform applied to the uniform, the sampler op and its parameters (no statistical test is run)",
     ]
-    return chk.finish()
+    return chk.finish(run_case)
 
 
 def replay(doc):
